@@ -152,3 +152,41 @@ package cache
 //@   ensures[C03] qCtx.query == old(qCtx.query) && qCtx.query.Id == old(qCtx.query.Id) && len(qCtx.query.Question) == old(len(qCtx.query.Question)) && (old(len(qCtx.query.Question)) == 1 ==> qCtx.query.Question[0] == old(qCtx.query.Question[0]))
 //@   ensures[C03] old(respX(qCtx)) && (len(ret(getMsgKey, 0)) == 0 || ret(getRespFromCache, 0, 0) == nil) ==> respX(qCtx)
 //@   ensures[C03] respWF(qCtx)
+
+// ---------------------------------------------------------------------------
+// C19: cache dump. What mosdns itself must do right: every field of an entry is written, each
+// decoded entry is re-admitted with exactly the times it was dumped with, allocation per block is
+// bounded before it happens, every read/decode error is reported.
+
+//@ func (x *CachedEntry) GetKey [C19]
+//@   ensures x != nil ==> result == x.Key
+//@ func (x *CachedEntry) GetMsg [C19]
+//@   ensures x != nil ==> result == x.Msg
+//@ func (x *CachedEntry) GetCacheExpirationTime [C19]
+//@   ensures x != nil ==> result == x.CacheExpirationTime
+//@ func (x *CachedEntry) GetMsgExpirationTime [C19]
+//@   ensures x != nil ==> result == x.MsgExpirationTime
+//@ func (x *CachedEntry) GetMsgStoredTime [C19]
+//@   ensures x != nil ==> result == x.MsgStoredTime
+//@ func (x *CacheDumpBlock) GetEntries [C19]
+//@   ensures x != nil ==> result == x.Entries
+//@   ensures x == nil ==> len(result) == 0
+
+//@ func paramfn:writeDump$2.writeBlock
+//@   log writeBlock
+//@   modifies *
+
+// the per-entry function of writeDump: an entry whose cache expiry is before `now` is skipped;
+// otherwise exactly one CachedEntry is appended to the current block, with ALL five fields taken
+// from the cache entry: key, packed message, cache expiry, message expiry and stored time.
+//@ func (c *Cache) writeDump$2 [C19]
+//@   requires v != nil && block != nil
+//@   modifies *
+//@   ensures cacheExpirationTime.ns < now.ns ==> result == nil && calls(msgPack) == 0 && len(block.Entries) == old(len(block.Entries))
+//@   ensures !(cacheExpirationTime.ns < now.ns) ==> calls(msgPack) == 1 && arg(msgPack, 0, 0) == old(v.resp)
+//@   ensures !(cacheExpirationTime.ns < now.ns) && ret(msgPack, 0, 1) != nil ==> result != nil && calls(writeBlock) == 0
+//@   ensures !(cacheExpirationTime.ns < now.ns) && ret(msgPack, 0, 1) == nil && calls(writeBlock) == 0 ==> len(block.Entries) == old(len(block.Entries)) + 1 && entryOf(block.Entries[old(len(block.Entries))], k, old(v.storedTime.ns), old(v.expirationTime.ns), cacheExpirationTime.ns) && block.Entries[old(len(block.Entries))].Msg == ret(msgPack, 0, 0)
+//@   ensures !(cacheExpirationTime.ns < now.ns) && ret(msgPack, 0, 1) == nil && calls(writeBlock) == 1 ==> atcall(writeBlock, 0, len(block.Entries) == old(len(block.Entries)) + 1 && entryOf(block.Entries[old(len(block.Entries))], k, old(v.storedTime.ns), old(v.expirationTime.ns), cacheExpirationTime.ns) && len(block.Entries) >= 128)
+//@   ensures calls(writeBlock) <= 1 && (calls(writeBlock) == 1 ==> result == ret(writeBlock, 0))
+// entryOf: the dump entry e carries key k and the three times (whole seconds) of a cache entry
+//@ spec func entryOf(e *CachedEntry, k key, stored int, msgExp int, cacheExp int) bool = e != nil && len(e.Key) == len(k) && (forall i int :: 0 <= i && i < len(k) ==> e.Key[i] == k[i]) && e.MsgStoredTime == stored / 1000000000 && e.MsgExpirationTime == msgExp / 1000000000 && e.CacheExpirationTime == cacheExp / 1000000000
